@@ -223,8 +223,23 @@ func execC08(c c08Case) Outcome {
 				fmt.Fprintln(aw, "this is not an audit record")
 			}
 		case "malformed_audit_then_login", "audit_eof_then_login":
-			// the audit side dies, then accepted logins arrive: their hand-off to the
-			// (dead) correlator must not keep the daemon alive
+			// the audit side dies while accepted logins keep arriving: a hand-off to the
+			// (dead) correlator that is in flight at that moment must not keep the daemon alive
+			loginsDone := make(chan struct{})
+			go func() {
+				defer close(loginsDone)
+				for i := 0; i < 200000; i++ {
+					select {
+					case <-stop:
+						return
+					default:
+					}
+					if _, err := fmt.Fprintf(sw, "%d Accepted password for flood%d from 1.2.3.4 port 22 ssh2\n", 8000+i, i); err != nil {
+						return
+					}
+				}
+			}()
+			time.Sleep(30 * time.Millisecond)
 			if c.Cause == "audit_eof_then_login" {
 				aw.Close()
 				aw = nil
